@@ -27,6 +27,7 @@ def run(ctx):
                                 "rcopy:into": n // 100, "rcopy:both": n // 100, "rcopy:interf": n // 100})
         c01.ceilings(ctx, "c01", {"cfg_rejected": n // 50, "liveness_error": 0})
         c01.exact_model_info(ctx)
+    c01.file_route(ctx)
     ctx.coverage["rule"] = (
         "same generated functions as C01 (incl. ones exceeding 15 GP / 32 vector / 7 mask registers, 8H-heavy ones, gather/scatter forms "
         "with vector index registers, four-operand forms; author-written RESTRICTED registers — SP in its 64/32/16/8-bit views, K0 — as "
@@ -51,5 +52,6 @@ def run(ctx):
         "which GP index is the stack pointer (4) and which opmask is K0 (0), and which names those rows print as, is the hardware numbering verified by C20, not here",
         "distinct virtual registers of one function have distinct ids: reg.Collection hands out 16-bit indices that wrap after 65 536 registers of a kind (finding F13 of C20); beyond that two virtuals are one register to every pass",
         "completeness of the allocator (that it finds an assignment whenever one exists) is not part of the property and not checked; a floor on the number of successfully bound functions guards against a pipeline that always fails",
+        "file route: 'no valid assignment was found for function j' is what the real AllocateRegisters/BindRegisters/VerifyAllocation report on an identical copy of function j alone (the passes are deterministic; on the unchanged tree pass.Compile and that route never disagreed in either direction); a Compile that succeeds on such a file is reported even if it had bound the function validly by other means",
     ]
     ctx.trusted += ["the harness's traversal of operand values (c01OpRegs: reg.Register, operand.Mem{Base,Index}) is the ground truth for 'the registers of an instruction'"]
